@@ -387,6 +387,15 @@ func (e *FnExec) execInstr(st *State, ins ssa.Instruction) {
 		l := e.alloc(st)
 		et := x.Type().(*types.Pointer).Elem()
 		e.store(st, l, et, zeroOf(et))
+		for _, g := range e.P.cs.Ghosts {
+			if g.TypeKey == typeKeyNoArgs(et) {
+				env := &SpecEnv{pureIdx: -1, e: e, cur: st, vars: map[string]specVar{}, pkg: e.P.typesPkg(g.PkgPath)}
+				if gt := env.tryResolveType(g.Type); gt != nil {
+					cl, so := ghostClass(g.Name, gt)
+					e.setMem(st, cl, so, Store(e.getMem(st, cl, so), l, zeroOf(gt)))
+				}
+			}
+		}
 		e.set(x, l)
 	case *ssa.Phi:
 		if _, ok := e.cellOf[x]; ok {
